@@ -175,7 +175,15 @@ pub(super) mod udp {
 
         fn encode(&mut self, (content, addr): DatagramPacket, dst: &mut BytesMut) -> anyhow::Result<()> {
             self.session.increase_packet_id();
-            self.codec.encode((content, addr, self.session.clone()), dst)
+            let start = dst.len();
+            self.codec.encode((content, addr, self.session.clone()), dst)?;
+            // a datagram the socket cannot send would stay in the framed sink and fail every later send of this binding
+            let sealed = dst.len() - start;
+            if sealed > 65507 {
+                dst.truncate(start);
+                anyhow::bail!("datagram of {sealed} bytes is too large");
+            }
+            Ok(())
         }
     }
 
